@@ -150,7 +150,7 @@ def act_to_step(a):
     return {"name": a["name"], "n": a["n"], "m": a["m"], "k": a["k"]}
 
 
-NET_CONSTS = {"ByzValues": '{"Z0", "ZX"}', "LazyByz": "TRUE",
+NET_CONSTS = {"ByzValues": '{"Z0", "Z0~", "ZX"}', "LazyByz": "TRUE",
               "TimeoutsOn": '{"NewHeight", "Propose", "PrevoteWait", "PrecommitWait"}'}
 NET_INVS = ["Agreement", "DecisionValid", "NoPanic", "DecisionCertified", "NoEquivocation", "CommitPartsMatch"]
 
@@ -576,7 +576,7 @@ PInit == Init /\\ pc = 0
 PNext == /\\ Next
          /\\ pc' = pc + 1
          /\\ (pc < Len(PSched) => (act'.name = PSched[pc + 1].name /\\ act'.n = PSched[pc + 1].n /\\ act'.k = PSched[pc + 1].k
-                                    /\\ (act'.name = "Timeout" \\/ act'.m = PSched[pc + 1].m)))
+                                    /\\ (act'.name # "Deliver" \\/ act'.m = PSched[pc + 1].m)))
 PBound == pc <= Len(PSched) + %d
 PCorridor == pc <= Len(PSched) \\/ %s
 ====""" % (sched, slack, corridor or "TRUE"))
